@@ -458,6 +458,13 @@ func (s *sched) reschedule(self *Thread) {
 			}
 		}
 		timerOK := s.timers.Len() > 0 && s.timers.items[0].when <= s.cfg.Horizon
+		if len(cand) == 0 && timerOK && s.timers.items[0].when <= s.now {
+			// a timer that is due at this very instant fires before anybody waiting for quiescence
+			// is released: nothing needs time to advance for it (time.AfterFunc(0, f), or a timer
+			// armed during a sleep for the instant at which the sleep ends)
+			s.fireTimer()
+			continue
+		}
 		if len(cand) == 0 {
 			// quiesce waiters
 			for _, t := range s.threads {
